@@ -773,3 +773,49 @@ def rule_rename_reset(ctx):
     ctx.check(not problems, "SI.RENAME-RESET", site, fi, branch.ast, "every assignment to .mnemonic records original_mnemonic and resets the "
               "session mnemonic to the useful mnemonic, on every path", "; ".join(dict.fromkeys(problems)), path)
     ctx.floor("SI.RENAME-RESET", 1)
+
+
+def rule_write_no_state(ctx):
+    """WR.NO-STATE: nothing reachable from write() keeps state from one call to the next: no write to module-level objects /
+    class attributes (same detector as PU.GLOBAL) and no mutation of a mutable default argument, including from nested
+    functions that close over it"""
+    p = ctx.p
+    r = get_resolver(p)
+    ea = get_effects(p)
+    roots = [p.func("writer.write"), p.func(LF + ".write")]
+    clos = r.closure(roots)
+    n = 0
+    for q, fi in sorted(clos.items()):
+        if fi.module.name not in ("writer", "las", "las_items", "defaults") or isinstance(fi.node, ast.Lambda):
+            continue
+        ws = _global_writes(p, ea, fi)
+        # mutable defaults mutated through nested functions / mutating methods
+        node = fi.node
+        args = node.args
+        defaults = list(zip([a.arg for a in args.args][len(args.args) - len(args.defaults):], args.defaults))
+        defaults += [(a.arg, d) for a, d in zip(args.kwonlyargs, args.kw_defaults) if d is not None]
+        mut = {nm for nm, d in defaults if isinstance(d, (ast.Dict, ast.List, ast.Set)) or (
+            isinstance(d, ast.Call) and isinstance(d.func, ast.Name) and d.func.id in ("dict", "list", "set", "OrderedDict"))}
+        if mut:
+            # only an unconditional re-binding at the top of the body detaches the name from the shared default object
+            rebound = {t.id for sub in node.body if isinstance(sub, ast.Assign) for t in sub.targets if isinstance(t, ast.Name)}
+            for sub in ast.walk(node):
+                tgt = None
+                if isinstance(sub, ast.Call) and isinstance(sub.func, ast.Attribute) and isinstance(sub.func.value, ast.Name) \
+                        and sub.func.attr in MUTATING_METHODS:
+                    tgt = sub.func.value.id
+                elif isinstance(sub, (ast.Assign, ast.AugAssign, ast.Delete)):
+                    for t in (sub.targets if isinstance(sub, (ast.Assign, ast.Delete)) else [sub.target]):
+                        if isinstance(t, ast.Subscript) and isinstance(t.value, ast.Name):
+                            tgt = t.value.id
+                if tgt in mut and tgt not in rebound:
+                    ws.append((sub, "mutates its mutable default argument `%s` (`%s`): what one call stores is seen by the next call"
+                               % (tgt, unparse(sub)[:60])))
+        n += 1
+        site = "%s#call-state" % q
+        if ws:
+            ctx.bad("WR.NO-STATE", site, fi, ws[0][0], "%s (reachable from write()) %s" % (q, ws[0][1]))
+        else:
+            ctx.ok("WR.NO-STATE", site, fi, fi.node, "keeps nothing between calls (no module/class state, no mutated default argument)",
+                   nontrivial=bool(mut) or fi.module.name == "writer")
+    ctx.floor("WR.NO-STATE", 5)
